@@ -111,5 +111,29 @@ PROPS["C05"] = {
     "assumptions": ["decode times contiguous per track", "track ids exist"],
 }
 
+_CRYPTO_TRUSTED = ["Model/Cenc.lean hand transcription of mp4/crypto.go (protect ranges, AppendProtectRange, CTR over ranges, CBC pattern cipher, incrementIV)",
+                   "Model/Aes.lean: executable AES-128 used only to instantiate the abstract block cipher in the driver; validated by FIPS-197 vectors (#guard) and differentially against Go crypto/aes on every run; no theorem depends on it",
+                   "Go crypto/aes and crypto/cipher are AES / CTR / CBC"]
+PROPS["C07"] = {
+    "level": "proof",
+    "technique": "Lean 4 proof (sub-sample mask = standard's mask for every well-formed sample; CTR/CBC-pattern modes over an abstract block cipher; IV arithmetic) + function- and fragment-level correspondence with an independent reference cipher",
+    "level_text": "Model lean/Mp4ff/Model/Cenc.lean transcribes the range computation for AVC/HEVC (uint32 arithmetic), AppendProtectRange, CryptSampleCenc, cbcsCrypt/cryptSampleCbcs and incrementIV, parametric in the block cipher; theorems in Props/C07.lean; tie = model-vs-code correspondence on ranges, CTR/CBC outputs (Lean AES in the driver) and IV increments, plus a fragment-level oracle: library-encrypted fragments are checked against crypto/cipher reference implementations, CENC well-formedness (partition, clear headers, saiz/saio/senc consistency, IV sequence).",
+    "level_note": "Trusted: Lean kernel, allowed axioms, transcription validated by correspondence; AES itself is not verified. cbcs slice-header sizes come from the slice header parsers (C15).",
+    "trusted": _CRYPTO_TRUSTED,
+    "unmodelled": ["saiz/saio/senc box bookkeeping in EncryptFragment (fragment-level oracle: independent box walker)", "cbcs slice header size (supplied by the parser; C15)"],
+    "partial": [],
+    "assumptions": ["samples are well-formed (length-prefixed, non-empty NAL units, total < 2^32)"],
+}
+PROPS["C06"] = {
+    "level": "proof",
+    "technique": "Lean 4 proof (CTR involution over the same sub-sample map; CBC pattern decrypt∘encrypt = id from D∘E = id; clear bytes untouched) + encrypt→decrypt round trips through the library API",
+    "level_text": "Theorems in Props/C06.lean hold for every sample, every sub-sample map that fits, every IV, every crypt/skip pattern, over an abstract block cipher with D∘E = id; tie = the C07 correspondence plus fragment-level round trips (AVC/HEVC/AAC, cenc/cbcs, 8/16-byte IVs incl. all-ff, 1..3 fragments, extra boxes incl. vendor uuid, free and unknown boxes) comparing samples, timing, sample entry type and every non-protection box with the clear input.",
+    "level_note": "Trusted: as C07. InitProtect/DecryptInit box surgery is exercised by the fragment-level oracle only.",
+    "trusted": _CRYPTO_TRUSTED,
+    "unmodelled": ["InitProtect/DecryptInit/RemoveEncryptionBoxes box surgery (oracle: sample entry restored, boxes preserved in order, data offsets valid)", "mp4ff-encrypt/mp4ff-decrypt CLI glue"],
+    "partial": [],
+    "assumptions": [],
+}
+
 # reasons for properties that are not claimed (yet)
 NOT_CLAIMED = {}
